@@ -429,16 +429,51 @@ class InvSim(AoefSim):
         self.node_worlds[n].add(key)
         src.pop("spec", None)
         p = op["path"]
-        reply = node.call(
-            "save", src=src, path=self.abspath(p), _env=self.env(None)
-        )
+        fault = op.get("fault")
+        try:
+            reply = node.call(
+                "save", src=src, path=self.abspath(p), _env=self.env(fault)
+            )
+        except NodeCrashed:
+            if not fault:
+                raise HarnessError("node died during a fault-free save") from None
+            self.restart(n)
+            reply = {"outcome": "crashed", "_fault_fired": True}
+        if reply.get("_fault_fired") and fault:
+            self.faults_fired.hit(fault["kind"])
         if reply["outcome"] != "ack":
-            raise HarnessError(f"fault-free save failed: {reply}")
+            if not fault:
+                raise HarnessError(f"fault-free save failed: {reply}")
+            # whatever is at the path now is not a document we vouch for
+            self.docs.pop(p, None)
+            self.record(op, reply["outcome"], fired=True)
+            self.trace.append(("store", described["type"], fault["kind"]))
+            self.probes.hit("store:interrupted-by-fault")
+            return
         raw = self.read_bytes(p)
         self.docs[p] = {"faults": [], "type": described["type"]}
         self.record(op, "ack", doc=sha(raw))
         self.trace.append(("store", described["type"]))
         self.probes.hit(f"store:{op['root']}")
+
+    def do_copy(self, op):
+        """Another program puts a complete document in the place of whatever
+        an interrupted save left there."""
+        src, dst = op["src"] % len(FILES), op["dst"] % len(FILES)
+        raw = self.read_bytes(src)
+        if raw is None or src == dst or src not in self.docs:
+            return self.record(op, "skipped")
+        target = self.abspath(dst)
+        os.makedirs(os.path.dirname(target), exist_ok=True)
+        with open(target, "wb") as fp:
+            fp.write(raw)
+        self.docs[dst] = {
+            "faults": list(self.docs[src]["faults"]),
+            "type": self.docs[src]["type"],
+        }
+        self.record(op, "ok", doc=sha(raw))
+        self.trace.append(("copy",))
+        self.probes.hit("file:copy-by-another-tool")
 
     # -- storage faults between save and load
 
@@ -548,8 +583,20 @@ class InvSim(AoefSim):
                     f"load accepted a stored document (faults {state['faults']}) "
                     f"and returned an object graph that breaks {got[:3]}",
                 )
-            if closed and broken:
-                self.probes.hit("C04:invalid-doc-repaired-by-lenient-load")
+            if closed and broken and not (
+                {"flip", "truncate"} & set(state["faults"])
+            ):
+                # every reference of the stored document resolves, so the
+                # loader has exactly this arrangement in front of it: the
+                # "only if" direction at the level of the document
+                inv, where = broken[0]
+                self.violate(
+                    "C04",
+                    f"C04:accepted-invalid:{inv}:{where}",
+                    f"stored document is closed under reference and breaks "
+                    f"{broken[:3]} (faults {state['faults']}), yet load "
+                    f"returned an object",
+                )
         else:
             # 2. completeness: a closed, valid stored arrangement must load
             if closed and not broken and not (
@@ -974,6 +1021,13 @@ DOC_FAULTS_VALID = [
 ]
 
 
+CRASHY = [
+    "crash_after_bytes", "crash_after_write", "crash_before_open",
+    "write_eio_after", "write_enospc", "crash_before_rename",
+    "crash_after_rename", "rename_eio",
+]
+
+
 def draw_run_cfg(rng, focus, tier):
     thorough = tier == "thorough"
     spec_cfg = specs.draw_cfg(rng, "C04")
@@ -997,6 +1051,7 @@ def draw_run_cfg(rng, focus, tier):
             "arrange": rng.choice([1, 3, 6]),
             "pristine": 1,
             "splice": rng.choice([0, 1]),
+            "restore": rng.choice([0, 1, 2]),
         },
     }
 
@@ -1041,10 +1096,11 @@ def gen_ops(rng, cfg, seed_tag):
     def node():
         return rng.randrange(cfg["n_nodes"])
 
-    def store(k, p=None):
+    def store(k, p=None, fault=None, root=None):
         p = rng.randrange(len(FILES)) if p is None else p
-        root = rng.choice(["evaluation", "evaluation", "annotation_project"])
-        ops.append({"op": "store", "k": k, "root": root, "path": p, "node": node()})
+        root = root or rng.choice(["evaluation", "evaluation", "annotation_project"])
+        ops.append({"op": "store", "k": k, "root": root, "path": p,
+                    "node": node(), "fault": fault})
         return p
 
     names = list(cfg["weights"])
@@ -1073,6 +1129,21 @@ def gen_ops(rng, cfg, seed_tag):
             for _ in range(rng.choice([1, 2, 3])):
                 ops.append({"op": "corrupt", "path": p,
                             "fault": draw_fault(rng, cfg["enabled_valid"])})
+            ops.append({"op": "loadcheck", "path": p, "node": node(), "h": h()})
+        elif pat == "restore":
+            # a save that overwrites a document is killed or fails; the file
+            # is then put back by another program (copy of a good document),
+            # goes bad, and is loaded
+            p = store(k)
+            if rng.random() < 0.5:
+                ops.append({"op": "loadcheck", "path": p, "node": node(), "h": h()})
+            store(k, p, fault={"kind": rng.choice(CRASHY), "permille": rng.choice([0, 500, 1000])})
+            p2 = (p + 1 + rng.randrange(len(FILES) - 1)) % len(FILES)
+            store(k, p2)
+            ops.append({"op": "copy", "src": p2, "dst": p})
+            for _ in range(rng.choice([1, 2])):
+                ops.append({"op": "corrupt", "path": p,
+                            "fault": draw_fault(rng, cfg["enabled_any"])})
             ops.append({"op": "loadcheck", "path": p, "node": node(), "h": h()})
         elif pat == "splice":
             p = store(k, 0)
@@ -1167,6 +1238,8 @@ CORE_PROBES = {
         "C04:target:SoundEventPrediction",
         "C04:target:SequencePrediction",
         "C04:target:AnnotationProject",
+        "store:interrupted-by-fault",
+        "file:copy-by-another-tool",
     ]
     + [f"doc:{k}" for k in DOC_FAULTS_ANY]
     + ["doc:consistent_delete", "doc:split_match", "doc:reorder",
